@@ -22,11 +22,12 @@ from . import common, linkcommon
 from .common import Result
 
 PROP = "C03"
-RULE = ("C01 movie stream; every movie is run through 6 strategies, 3 entry points, shuffled rows, "
-        "per-axis vs pre-divided coordinates, a uniform power-of-two rescaling and the legacy "
-        "linker (KDTree; BTree hash grid with 6 box sizes, translated into the grid; 4 link strategies; "
-        "legacy.link_iter and legacy.link).  Non-trivial = the reference run has at least one contested sub-net or memory "
-        "re-link; distinct = distinct canonical movie.")
+RULE = ("C01 movie stream + a stream of sparse movies with long steps in arbitrary directions (range "
+        "4..16 lattice units); every movie is run through 6 strategies, 3 entry points, shuffled rows, "
+        "per-axis vs pre-divided coordinates, a uniform power-of-two rescaling and the legacy linker "
+        "(KDTree; BTree hash grid with 6 box sizes, the movie translated into the grid; 4 link "
+        "strategies; legacy.link_iter and legacy.link).  Non-trivial = the reference run has at least "
+        "one contested sub-net or memory re-link; distinct = distinct canonical movie.")
 ASSUMPTIONS = [
     "integer lattice positions; pre-division uses the same float operation (x / search_range) as "
     "Linker.to_eucl, uniform rescaling uses powers of two: both exact",
@@ -68,6 +69,40 @@ def gen_cases(ctx):
         mv["stream"] = "agree"
         mv["shuffle_seed"] = rng.randrange(10 ** 6)
         yield mv
+    for i in range(ctx.n(40, 300)):
+        yield gen_long_steps(ctx.rng("long-steps", i))
+
+
+def gen_long_steps(rng):
+    """A few features taking LONG steps in arbitrary directions, on a lattice that is fine against the
+    range (search_range 4..16 lattice units; steps of 0.3..1.15 ranges): the candidates that a
+    neighbour search structure (k-d tree, hash grid of any box size) has to find far from the
+    feature's own cell, in every direction.  Sparse, so that exact ties are rare and the partitions
+    themselves are compared."""
+    import math
+    dim = rng.choice([2, 2, 3])
+    R = rng.randint(4, 16)
+    npart = rng.randint(2, 8)
+    nfr = rng.randint(2, 6)
+    side = R * rng.choice([3, 5, 8])
+    pos = [[rng.randrange(side) for _ in range(dim)] for _ in range(npart)]
+    frames = []
+    for k in range(nfr):
+        pts = [list(p) for p in pos if rng.random() < 0.9]
+        rng.shuffle(pts)
+        frames.append(pts)
+        for p in pos:
+            v = [rng.gauss(0, 1) for _ in range(dim)]
+            if rng.random() < 0.4:        # along a diagonal of the lattice
+                v = [rng.choice([-1.0, 1.0]) for _ in range(dim)]
+            nv = math.sqrt(sum(c * c for c in v)) or 1.0
+            L = R * rng.uniform(0.3, 1.15)
+            for i in range(dim):
+                p[i] += int(round(L * v[i] / nv))
+    return dict(dim=dim, frames=frames, t0=rng.choice([0, 0, 3, -2]), sr=[4 * R] * dim, iso=True,
+                scale_pow=rng.choice([0, 0, 0, -8, 10]), default_cols=(rng.random() < 0.3),
+                memory=rng.choice([0, 0, 1, 2]), strategy="recursive", entry="link_iter", missing=[],
+                stream="long-steps", shuffle_seed=rng.randrange(10 ** 6))
 
 
 def partition(levels):
@@ -249,6 +284,7 @@ def run_case(ctx, inp):
     ref = linkcommon.run_impl(ref_inp)
     m = common.kv(ctx.ask(linkcommon.lrun_line(ref_inp, ref)))
     res.stat("movies")
+    res.stat("stream_" + str(inp.get("stream", "agree")))
     if m.get("verdict") not in ("ok", "capped", "expect-oversize"):
         reason = str(m.get("reason")).replace("_", " ")
         omsg = linkcommon.oracle_levels(ref_inp, ref)
@@ -290,6 +326,8 @@ def run_case(ctx, inp):
                strategy=st, entry="link")
     if inp["dim"] in (2, 3) and inp.get("iso", True):
         # (1-D and per-axis ranges: the unchanged hash grid refuses them, see ASSUMPTIONS)
+        if exact_range_pair(inp):
+            res.stat("legacy_btree_movies_with_pair_at_exact_range")
         for j, (bn, bf) in enumerate(BOXES + [ODD_BOXES[h % len(ODD_BOXES)]]):
             st = LEGACY_STRATS[(h + j) % 3]
             mode = 0 if bf is None else (h // 3 + j) % 4
